@@ -199,3 +199,8 @@ EXTRA["C17"] = EXTRA.get("C17", []) + [
 EXTRA["C15"] = EXTRA.get("C15", []) + [
     M("one-share-for-threshold-1", "shamir.py", "            return [(i, secret) for i in range(n)]\n", "            return [(0, secret)]\n", ["C15.17"], "1-of-n yields one share (F45 undone)"),
 ]
+
+EXTRA["C10"] = EXTRA.get("C10", []) + [
+    M("out-update-overwrites-redeem-script", "psbt.py", "            self.redeem_script = self.redeem_script or redeem_lookup.get(\n                script_pubkey.commands[1]\n            )\n            # if no RedeemScript exists, we can't update, so return\n",
+      "            self.redeem_script = redeem_lookup.get(\n                script_pubkey.commands[1]\n            )\n            # if no RedeemScript exists, we can't update, so return\n", ["C10.28"], "output updater forgets the attached RedeemScript (F46 undone)"),
+]
